@@ -104,7 +104,7 @@ func Gen(seed int64, idx int, o GenOpts) *History {
 	h.Replicas = 2 + rng.Intn(o.MaxReplicas-1)
 	h.Failures = o.Failures
 	h.HugeClocks = o.Failures && idx%8 == 5
-	h.ReuseOptions = idx%2 == 0
+	h.ReuseOptions = idx%4 >= 2
 	h.Order = o.Orders[rng.Intn(len(o.Orders))]
 	h.Codec = o.Codecs[rng.Intn(len(o.Codecs))]
 	h.Shape = o.Shapes[idx%len(o.Shapes)]
@@ -201,7 +201,31 @@ func Gen(seed int64, idx int, o GenOpts) *History {
 	noop := func(r int) Step {
 		return Step{Op: []string{"joinself", "joinempty", "joinforeign"}[rng.Intn(3)], R: r}
 	}
+	if o.Truncated && idx%2 == 0 {
+		h.Shape = "lagging"
+	}
 	switch h.Shape {
+	case "lagging":
+		// a replica that is 1,2,4,8.. entries behind a writer using skip references merges a length-limited
+		// load of the writer's newest entries (the chain in between is absent)
+		wr := 0
+		for c := 4 + rng.Intn(6); c > 0; c-- {
+			add(Step{Op: "append", R: wr, PC: 16, Payload: pay()})
+		}
+		for len(h.Steps) < n {
+			r := 1 + rng.Intn(R-1)
+			add(join(r, wr))
+			if rng.Intn(3) == 0 {
+				add(app(r))
+			}
+			for c := []int{1, 2, 3, 4, 5, 8, 9}[rng.Intn(7)]; c > 0; c-- {
+				add(Step{Op: "append", R: wr, PC: 16, Payload: pay()})
+			}
+			add(Step{Op: "jointruncated", R: r, S: wr, PC: 1 + rng.Intn(2)})
+			if rng.Intn(2) == 0 {
+				add(app(r))
+			}
+		}
 	case "manyheads":
 		// one long chain plus many short logs of other replicas: more heads than the pointer count
 		extra := 7 + rng.Intn(10)
